@@ -229,15 +229,8 @@ def has_subst(f): return any(it[0] == "S" for it in items_of(f))
 def has_neg_arch(f): return any(r["archs"] and any(t[1] for t in r["archs"][1]) for r in rels_of(f))
 
 def lossy_dom(f):
-    if has_subst(f): return False
-    def gi(g): return "\n" not in g[0] and all("\n" not in t[0] for t in g[1]) and "\n" not in g[2]
-    for r in rels_of(f):
-        q, v = r["qual"], r["ver"]
-        if q and ("\n" in q[0] or q[1] != ""): return False
-        if v and any("\n" in x for x in (v[0], v[1], v[3], v[6])): return False
-        if r["archs"] and not gi(r["archs"]): return False
-        if not all(gi(g) for g in r["profs"]): return False
-    return True
+    """the domain of the lossy clause (RelGrammar.lossy_dom): no substitution variables"""
+    return not has_subst(f)
 
 def needs_fix(f):
     """uses what the lossless reader only accepts with the proposed fix: an epoch, or whitespace before ')'"""
